@@ -53,7 +53,7 @@ FLOORS = {
         "hook:JaggedArray.unpack": 200, "hook:FlagSerializer._remapBits": 100, "hook:Database._writeAttrs": 500, "hook:Database._resolveAttrs": 1500,
         "hook:Database.writeToDB": 60, "hook:Database.load": 40,
         # faithful non-trivial round trips per family: a tree that refuses (nearly) everything must not be reported as held
-        "faithful/scalar": 120, "faithful/array-equal": 100, "faithful/array-ragged": 100, "faithful/array-empty": 40, "faithful/dict": 15,
+        "large.long-entry": 8, "large.long-entry>=65536": 3, "faithful/scalar": 120, "faithful/array-equal": 100, "faithful/array-ragged": 100, "faithful/array-empty": 40, "faithful/dict": 15,
         "faithful/flags": 150, "faithful/nested": 8, "faithful/str": 12,
         "faithful/array-ragged as list": 30, "faithful/array-ragged as ndarray": 60, "faithful/array-equal as list": 25,
         "faithful/layout-fortran": 8, "faithful/layout-transposed-view": 8, "faithful/layout-strided-view": 15, "faithful/layout-reversed-view": 15,
@@ -64,7 +64,7 @@ FLOORS = {
         "hook:armi.bookkeeping.db.database.replaceNonesWithNonsense": 1500, "hook:armi.bookkeeping.db.database.replaceNonsenseWithNones": 800,
         "hook:JaggedArray.unpack": 3000, "hook:FlagSerializer._remapBits": 2000, "hook:Database._writeAttrs": 8000, "hook:Database._resolveAttrs": 20000,
         "hook:Database.writeToDB": 600, "hook:Database.load": 400,
-        "faithful/scalar": 1800, "faithful/array-equal": 1500, "faithful/array-ragged": 1500, "faithful/array-empty": 600, "faithful/dict": 200,
+        "large.long-entry": 30, "large.long-entry>=65536": 12, "faithful/scalar": 1800, "faithful/array-equal": 1500, "faithful/array-ragged": 1500, "faithful/array-empty": 600, "faithful/dict": 200,
         "faithful/flags": 2000, "faithful/nested": 200, "faithful/str": 400,
         "faithful/array-ragged as list": 400, "faithful/array-ragged as ndarray": 800, "faithful/array-equal as list": 300,
         "faithful/layout-fortran": 100, "faithful/layout-transposed-view": 100, "faithful/layout-strided-view": 200, "faithful/layout-reversed-view": 200,
@@ -99,7 +99,7 @@ def plan(tier, seed):
         shards.append({"name": "unit%d" % i, "kind": "unit", "n": 520 if q else 5200, "phase": i})
     for i in range(2 if q else 3):
         shards.append({"name": "flags%d" % i, "kind": "flags", "n": 260 if q else 2400})
-    shards.append({"name": "large", "kind": "large", "n": 10 if q else 48})
+    shards.append({"name": "large", "kind": "large", "n": 16 if q else 64})
     for i in range(4 if q else 8):
         shards.append({"name": "full%d" % i, "kind": "full", "n": 42 if q else 190, "phase": i})
     return shards
@@ -967,7 +967,9 @@ def do_large(spec, rec):
     import numpy as np
 
     udb = UnitDB()
-    modes = ["dict-many-keys", "jagged-many-objects", "jagged-many-objects+none", "dict-many-keys-nan", "jagged-2d-many", "flags-many-fields"]
+    modes = ["dict-many-keys", "jagged-many-objects", "jagged-many-objects+none", "dict-many-keys-nan", "jagged-2d-many", "flags-many-fields",
+             "jagged-long-entry", "jagged-long-entry-2d"]
+    # "jagged-long-entry": lengths at the edges of the integer widths a shape or offset table could be narrowed to
     for i in range(spec["n"]):
         rng = random.Random("%s:%d" % (spec["rng"], i))
         mode = modes[i % len(modes)]
@@ -988,6 +990,18 @@ def do_large(spec, rec):
             col[0] = {k: 1.0 * j for j, k in enumerate(keys)}
         elif mode == "flags-many-fields":
             col, meta, serializer = gen_flags_case(rng, rng.randint(1, 3), "none", nfields=rng.randint(4200, 5000), order="permuted")
+        elif mode.startswith("jagged-long-entry"):
+            variants = []
+            for L in [65536, rng.choice([65535, 65537, 70000, 131072, 140001]), rng.choice([255, 256, 257, 32767, 32768])]:
+                rec.hit("large.long-entry")
+                if L >= 65536:
+                    rec.hit("large.long-entry>=65536")
+                long_ = np.arange(L, dtype=float) if mode == "jagged-long-entry" else np.arange(2 * L, dtype=float).reshape((L, 2) if rng.random() < .5 else (2, L))
+                col = [np.arange(rng.randint(1, 5), dtype=float) for _ in range(rng.randint(1, 3))]
+                col.insert(rng.randint(0, len(col)), long_)
+                if rng.random() < .5:
+                    col.insert(rng.randint(0, len(col)), None)
+                variants.append((col, dict(meta, long=L)))
         else:
             n = rng.randint(9000, 12000)
             two = mode == "jagged-2d-many"
@@ -997,8 +1011,10 @@ def do_large(spec, rec):
                     col.append(None)
                 else:
                     col.append(np.arange(j % 3 + 1, dtype=float) + j if not two else np.full((j % 2 + 1, 2), float(j)))
-        meta["n"] = len(col)
-        for emulate in (False, True):
+        if not mode.startswith("jagged-long-entry"):
+            variants = [(col, meta)]
+        for (col, meta), emulate in [(v, e) for v in variants for e in (False, True)]:
+            meta["n"] = len(col)
             if emulate and mode == "flags-many-fields":
                 # a list-of-str attribute moved to a dataset comes back as bytes under h5py 3 dataset semantics: an artefact of
                 # combining the old limit with the new h5py (thousands of flag fields are needed to get there), not judged
